@@ -294,9 +294,10 @@ def expr_for(c, r):
             "(%s, fun i : nat => nth i %s [])" % (vlib.strlit(nm), vlib.strlist(col)) for nm, col in zip(tn["names"], tn["cols"]))
         cap = r.get("captured")
         out = frame_lit(cap["names"], cap["cols"]) if cap else "df"
-        return ("let df := %s in let cfg := %s in let steps := batch_steps (fun x => x) %s (fun _ _ => []) (fun x => x) "
+        sample = "(observed_sample %s)" % vlib.strlist(cap["names"]) if cap else "(fun _ x => x)"
+        return ("let df := %s in let cfg := %s in let steps := batch_steps (fun x => x) %s (fun _ _ => []) %s "
                 "(order_for %s) cfg in (append_okb df %s, run_steps steps df, trace steps df)" % (
-                    df, cfg_lit(c), T, observed_token_order(c, r), out))
+                    df, cfg_lit(c), T, sample, observed_token_order(c, r), out))
     out = frame_lit(r["names"], r["cols"])
     if k == "multivalue":
         model = "multivalue_args id_perm df %s %s" % (vlib.strlit(c["explode"]), vlib.strlit(c["missing"]))
@@ -356,7 +357,9 @@ def compare_batch(c, r, v):
         return None                                           # configuration the transcription rejects: not compared
     model = decode_frame(model[1])
     mnames = [nm for nm, _ in model]
-    order_known = bool(r.get("captured")) or c["explode"] == "False" or (c["order"] <= 1)
+    # without the recorded frame the orders the property leaves free (token order, sampler order) are unknown, and the
+    # names of interactions built on top of them cannot be predicted
+    order_known = bool(r.get("captured")) or c["order"] <= 1
     if order_known and set(r["summary_names"]) != set(mnames):
         return ("feature names in BatchRankingSummary = original + constructed features",
                 {"only_in_impl": sorted(set(r["summary_names"]) - set(mnames))[:8],
@@ -633,7 +636,8 @@ def check(run, replay):
         "history case",
         "configurations naming a missing column / malformed mappings (the transcription returns None, the code raises) are not compared",
         "interaction columns inside compute_batch_ranking are compared by the partition they induce (the model runs with the "
-        "identity as hash); the sampler cap is non-binding in batch cases",
+        "identity as hash); the sampler cap is non-binding in batch cases and the order in which the sampler returns the "
+        "candidates (history dependent) is read off the recorded frame, like the multi-value token order",
         "FeatureTransformerGeneric is an oracle here (what it appends is read from a direct call and fed to the model); "
         "its formulas are C12's",
     ]
